@@ -376,13 +376,13 @@ def gen_network(r, big=False):
     idmode = r.choice(['small', 'small', 'sparse', 'large', 'zero'])
     nconn = r.randint(0, 8) if not big else r.randint(8, 40)
     if idmode == 'small':
-        pool = r.sample(range(1, 40), nconn)
+        pool = r.sample(range(1, 60), nconn)
     elif idmode == 'sparse':
         pool = r.sample(range(1, 10 ** 9), nconn)
     elif idmode == 'large':
         pool = [2 ** 62 + x for x in r.sample(range(1, 10 ** 6), nconn)]
     else:
-        pool = ([0] + r.sample(range(1, 40), max(nconn - 1, 0)))[:nconn]
+        pool = ([0] + r.sample(range(1, 60), max(nconn - 1, 0)))[:nconn]
     tables = [[] for _ in range(nn)]
     violate = r.random() < 0.2
     for c in pool:
